@@ -156,11 +156,19 @@ def cases(tier, inst):
     for h in histories(initial(), enabled, step, d):
         if h and (h[-1][0] in "EY") and any(o in DECL for o in h) == any(o[0] == "E" for o in h):
             yield h
+    # the same histories, two levels shallower, with the result cache DISABLED for the whole history (the registry of
+    # instances is not a result cache: constructions must be registered all the same)
+    for h in histories(initial(), enabled, step, d - 2):
+        if h and h[-1][0] == "E" and any(o in KONS or o == "R" for o in h):
+            yield ("@nocache",) + h
 
 
 def run_case(hist, inst):
     if hist and hist[0] in ("Q1", "Q2"):
         return run_query_case(hist, inst)
+    caching = True
+    if hist and hist[0] == "@nocache":
+        caching, hist = False, hist[1:]
 
     def body():
         log = []
@@ -297,13 +305,13 @@ def run_case(hist, inst):
                 return ("step-raised", i, op, exc_obs(e), "no exception"), trans, flags
         return None, trans, flags
 
-    bad, trans, flags = run_isolated(body)
+    bad, trans, flags = run_isolated(body, caching=caching)
     res = {"ok": bad is None, "nontrivial": bool(flags), "transitions": trans,
-           "tags": [f"len={len(hist)}"] + sorted(flags) + [f"op={o[0] if o[0] in 'KYDE' else o}" for o in set(hist)],
+           "tags": [f"len={len(hist)}"] + sorted(flags) + ([] if caching else ["caching_disabled"]) + [f"op={o[0] if o[0] in 'KYDE' else o}" for o in set(hist)],
            "outcome": None}
     if bad is not None:
         kind, i, op, got, exp = bad
-        res.update(sig=f"{kind}", obs=(f"at step {i + 1} of {list(hist)}", got), exp=exp,
+        res.update(sig=f"{kind}" + ("" if caching else "/caching-disabled"), obs=(f"at step {i + 1} of {list(hist)}", got), exp=exp,
                    kf_hint={"kind": kind, "step": i})
     return res
 
@@ -339,5 +347,8 @@ def describe(hist, inst):
         return (Q.up_world(TWO, inst) + "\n# nothing else has been constructed: the registries are exactly DA (Item) and DO (Other)\n"
                 + Q.up_query(q, inst) + "\nrows = list(q.evaluate())   # expected: every satisfying (x, y) pair, each once; the same when evaluated "
                 "again, and again after `it = q.evaluate(); next(it); it.close()`")
-    return (f"history: {' ; '.join(hist)}\n# {LEGEND}\n# expected at every E<i>: exactly the instances of the type "
+    pre = ""
+    if hist and hist[0] == "@nocache":
+        pre, hist = "disable_caching()   # for the whole history\n", hist[1:]
+    return (pre + f"history: {' ; '.join(hist)}\n# {LEGEND}\n# expected at every E<i>: exactly the instances of the type "
             "(subclasses included) constructed concretely since the last clear, each once, by identity")
